@@ -2,6 +2,7 @@ package interp
 
 import (
 	"go/token"
+	"go/types"
 
 	"gosymx/sym"
 )
@@ -182,3 +183,64 @@ func init() {
 	reg("sync/atomic.CompareAndSwapUint64", cas)
 }
 
+
+// sync.Map: an engine-side map per object address (keys and values are interfaces).
+func (in *Interp) syncMapOf(p Value) *Map {
+	c := p.(*Value)
+	if c == nil {
+		panic(targetPanic{msg: "runtime error: invalid memory address or nil pointer dereference (nil *sync.Map)", rt: true})
+	}
+	if in.syncMaps == nil {
+		in.syncMaps = map[*Value]*Map{}
+	}
+	m := in.syncMaps[c]
+	if m == nil {
+		m = in.newMap(types.NewInterfaceType(nil, nil))
+		in.syncMaps[c] = m
+	}
+	return m
+}
+
+func init() {
+	reg("(*sync.Map).Load", func(fr *frame, a []Value) Value {
+		in := fr.in
+		in.schedPoint(fr, "syncmap")
+		if e := in.mapFind(fr, in.syncMapOf(a[0]), a[1]); e != nil {
+			return Tuple{copyVal(e.val), in.ctx.True()}
+		}
+		return Tuple{Iface{}, in.ctx.False()}
+	})
+	reg("(*sync.Map).Store", func(fr *frame, a []Value) Value {
+		in := fr.in
+		in.schedPoint(fr, "syncmap")
+		in.mapInsert(fr, in.syncMapOf(a[0]), a[1], a[2])
+		return nil
+	})
+	reg("(*sync.Map).LoadOrStore", func(fr *frame, a []Value) Value {
+		in := fr.in
+		in.schedPoint(fr, "syncmap")
+		m := in.syncMapOf(a[0])
+		if e := in.mapFind(fr, m, a[1]); e != nil {
+			return Tuple{copyVal(e.val), in.ctx.True()}
+		}
+		in.mapInsert(fr, m, a[1], a[2])
+		return Tuple{a[2], in.ctx.False()}
+	})
+	reg("(*sync.Map).Delete", func(fr *frame, a []Value) Value {
+		in := fr.in
+		in.schedPoint(fr, "syncmap")
+		in.mapDelete(fr, in.syncMapOf(a[0]), a[1])
+		return nil
+	})
+	reg("(*sync.Map).LoadAndDelete", func(fr *frame, a []Value) Value {
+		in := fr.in
+		in.schedPoint(fr, "syncmap")
+		m := in.syncMapOf(a[0])
+		if e := in.mapFind(fr, m, a[1]); e != nil {
+			v := copyVal(e.val)
+			in.mapDelete(fr, m, a[1])
+			return Tuple{v, in.ctx.True()}
+		}
+		return Tuple{Iface{}, in.ctx.False()}
+	})
+}
